@@ -47,7 +47,7 @@ def mapRaces (impl : String) : List String :=
     fn.startsWith pre && Sky.Gen.C32Facts.directAccessors.contains (fn.drop pre.length).toString))
 
 def stepLine (_ : Unit) (op impl : String) : Unit × String × Verdict :=
-  if !(op.startsWith "run ") && !(op.startsWith "runq ") then ((), "bad-op", .unknown) else
+  if !(op.startsWith "run ") && !(op.startsWith "runq ") && !(op.startsWith "runb ") then ((), "bad-op", .unknown) else
   if !(mapRaces impl).isEmpty then
     ((), "rejected: data race on the pool maps reported by the race detector: " ++ ";".intercalate (mapRaces impl), .fail) else
   -- C32 says "never race on shared state": every other report of the race detector is a violation too (outside the
